@@ -97,13 +97,32 @@ PROPS["C20"] = {
     "trusted": ["net/http FormValue/Method", "runtime.Stack returns min(need, len)", "the Go runtime's goroutine state names"],
 }
 
+
+PROPS["C14"] = {
+    "lean": ["PP.Props.C14", "PP.Tie.Alias", "PP.Tie.Globals"],
+    "what": "Immutability under aggregation, on an explicit-heap (aliasing) model of Args.merge / Call.merge / Stack.merge / Signature.merge / Aggregate in which bucket keys start as shallow copies sharing every slice with the snapshot: merge_frame and aggregate_frame (every cell that existed before the call is unchanged after it - all writes go to cells allocated during the call - for every heap, every sharing, every map-order oracle, no hypotheses), snapshot_unchanged / snapshot_unchanged_seq (the goroutines read back from the heap are equal before and after any sequence of aggregations at any levels), merge_refines / aggregate_refines (the heap version computes exactly the functional model's buckets, so every other theorem applies to it), aggregate_twice; the buggy in-place variant is shown (decide) to violate the frame property. Pins: the extracted write set of every function reachable from Aggregate, ToHTML and the console writers contains no write through a receiver or caller-supplied argument; no function assigns to a package-level variable; the library starts no goroutines. Harness: random histories of Aggregate/ToHTML/console rendering on one snapshot with deep equality after every step and equality with a fresh snapshot, the same from 8 goroutines on a shared snapshot, and a separately built -race program (16 goroutines sharing snapshot and Opts).",
+    "partial": "data races are a notion of the Go memory model that the Lean model cannot exhibit: the race-detector runs are evidence, not theorems; rendering is covered by the pinned write set and the deep-equality histories, not by a heap model of html/template.",
+    "trusted": ["the race detector (for the concurrency half)", "html/template and fmt do not write through their arguments"],
+}
+PROPS["C16"] = {
+    "lean": ["PP.Props.C16", "PP.Tie.Console"],
+    "what": "Console rendering: blocks_buckets / blocks_goroutines (the output is the banner followed by the blocks of exactly the admitted buckets or goroutines, in order, each once), filter_match_split_buckets/_goroutines (for every predicate on headers the filter-out and match-only outputs are disjoint sublists whose union is the unfiltered block list, with identical block text), aligned / aligned_buckets / aligned_goroutines (file and function columns at fixed rune offsets over the whole output; padding counted in runes, widths in bytes, incl. invalid UTF-8), elided_marker, colour_strip_buckets/_goroutines (removing the escape sequences of a palette made of ANSI sequences from the coloured output gives the uncoloured output, when no filter is active and the dump text contains no ESC), header_fields_bucket/_goroutine, createdBy_fields; harness: implementation output re-derived block by block from the buckets (headers, columns in runes, markers), ANSI stripping, exact filter/match split, byte-exact correspondence with the model for parsed, constructed, non-ASCII and hostile snapshots x 3 path formats x colour x similarity x patterns.",
+    "partial": "alignment is in runes, not display cells (East-Asian wide / combining characters); a package directory or file:line longer than 10^6 bytes makes fmt reject the '*' width (%!(BADWIDTH)): aligned carries that bound as a hypothesis.",
+    "trusted": ["fmt verbs %s %d %x %08x %-*s as modelled", "regexp engine (an abstract predicate on headers in the theorems)"],
+}
+PROPS["C18"] = {
+    "lean": ["PP.Props.C18"],
+    "what": "Path rebasing: resolved_suffix (a resolved local path ends with the relative path), root_is_prefix, class_by_branch / location_kept, unresolved_stays_unknown / resolved_iff, testmain_stdlib / testmain_kept, innermost_root / updateLocations_perm (the longest matching root is used; independent of map order), findRoots_no_panic / guessPaths_no_panic (for every file-system oracle and dump), findRoots_sound / detected_gopath_at_boundary / detected_goroot_at_boundary / cut_is_src_part (every detected root is cut at a component boundary in front of a real src or pkg/mod component, with the remainder existing under the local root), detected_*_clean, layout_correct_partial (single GOPATH); harness: generated trees on disk (GOROOT, 0..3 disjoint GOPATHs with src and pkg/mod, go.mod modules, absent files) x remote renamings, scanned end to end with GuessPaths and checked against the layout; hostile paths; 7 repeated runs; correspondence with the model under the same file-system oracle.",
+    "partial": "the layout theorem is proved for a single GOPATH under the decidable side condition that no shorter split point accidentally exists on disk (layout_correct_partial): over arbitrary disk contents accidental suffix collisions defeat any root heuristic; the multi-root statement is covered by the harness against generated layouts. Nested (non-disjoint) roots, roots referenced only by created-by lines and the bare relative path '_test/_testmain.go' are outside the property's quantifier and only observed.",
+    "trusted": ["os.Stat / os.ReadFile (file-system oracle)", "path.Dir, regexp (reModule hand matcher)"],
+}
+
 # Harness-only entries: checks that run (bin/seedtest, development) but are not
 # claimed in MANIFEST.json until their theorems exist.
 EXTRA = {
     "C01": {"lean": ["PP.Tie.Scan", "PP.Tie.Reader"], "what": "harness only"},
     "C08": {"lean": ["PP.Tie.Scan"], "what": "harness only"},
-    "C14": {"lean": ["PP.Tie.Globals", "PP.Tie.Alias"], "what": "harness only"},
-    "C18": {"lean": [], "what": "harness only"},
+
 }
 
 NOT_CLAIMED = {}
